@@ -44,6 +44,20 @@ static EbErrorType make(T **pp) {
 #include "Source/Lib/Common/Codec/EbBitstreamUnit.c"
 typedef OutputBitstreamUnit T;
 static EbErrorType make(T **pp) { EB_NEW(*pp, output_bitstream_unit_ctor, (uint32_t)vin_range(1, 64)); return EB_ErrorNone; }
+#elif OBJ == 6
+/* an object wrapper of the resource manager around a library buffer header: real svt_object_wrapper_ctor / svt_object_wrapper_dctor
+ * (EbSystemResourceManager.c) with the real svt_output_recon_buffer_header_creator / _destroyer (sliced by name from EbEncHandle.c) */
+#include "common/dctor_dispatch_srm.h"
+#include "Source/Lib/Common/Codec/EbSystemResourceManager.c"
+#include "EbSequenceControlSet.h"
+#include "c16_wrapper.inc"
+typedef EbObjectWrapper T;
+static EbErrorType make(T **pp) {
+    SequenceControlSet *scs = (SequenceControlSet *)(malloc)(sizeof *scs); V_ASSUME(scs != NULL);   /* (malloc): the plain libc function, not counted by the allocation model */
+    scs->seq_header.max_frame_width = 8; scs->seq_header.max_frame_height = 8; scs->static_config.encoder_bit_depth = vinbool() ? 10 : 8;
+    EB_NEW(*pp, svt_object_wrapper_ctor, NULL, svt_output_recon_buffer_header_creator, (EbPtr)scs, svt_output_recon_buffer_header_destroyer);
+    return EB_ErrorNone;
+}
 #elif OBJ == 5
 /* the encoder handle itself: real svt_enc_handle_ctor / svt_enc_handle_dctor / svt_enc_handle_stop_threads (sliced by name from
  * EbEncHandle.c); the sequence-control-set instance constructor is replaced by a stand-in that allocates through the same
